@@ -61,6 +61,7 @@ def one(prop):
             continue
         broken = sh(f"/venv/bin/python out/{m}_demo.py", wt) if is_mut else None
         lost = suite(wt, f"{prop}{m}")
+        sh("git add -A -N flow", wt)
         newdiff = sh("git diff", wt).stdout
         sh("git checkout -q -- .", wt)
         if is_mut:
